@@ -137,6 +137,37 @@ def _sym_const(v):
     return None
 
 
+def _code_wrapper(f):
+    """marks the dynamic extent of extracted repository code (F-mode rounding applies only inside it)"""
+    import functools
+
+    @functools.wraps(f)
+    def w(*a, **k):
+        c = sym._CTX
+        if c is None:
+            return f(*a, **k)
+        c.in_code += 1
+        try:
+            return f(*a, **k)
+        finally:
+            c.in_code -= 1
+    return w
+
+
+class exact_spec:
+    """context manager for contract stubs called from repository code: specification arithmetic is exact"""
+
+    def __enter__(self):
+        c = sym._CTX
+        self.saved = c.in_code if c is not None else 0
+        if c is not None:
+            c.in_code = 0
+
+    def __exit__(self, *a):
+        if sym._CTX is not None:
+            sym._CTX.in_code = self.saved
+
+
 class LazyFn:
     """A resonaate function referenced from an extracted function: extracted itself on first call."""
 
@@ -183,10 +214,15 @@ class Loader:
         mod, qual = spec.split(":")
         real = importlib.import_module(mod)
         o = real
+        import builtins as _b
+        if qual.startswith("@") and hasattr(_b, qual[1:]):
+            o = _b
         for part in qual.lstrip("@").split("."):
             if not hasattr(o, part):
                 raise KeyError(f"stub target {spec} does not exist in the repository")
             o = getattr(o, part)
+        if not qual.startswith("@") and isinstance(o, types.FunctionType):
+            spec = f"{o.__module__}:{o.__qualname__}"  # canonical: the defining module of the function
         self.stubs[spec] = f
         if qual.startswith("@"):
             g = self.cache.get(("globals", mod))
@@ -216,7 +252,7 @@ class Loader:
         g = self.globals_for(mod)
         ns = {}
         exec(code, g, ns)
-        f = ns[node.name]
+        f = _code_wrapper(ns[node.name])
         FUNCTIONS_USED[spec] = {
             "file": os.path.relpath(path, REPO_SRC), "sha256": sha, "lines": [node.lineno, node.end_lineno],
             "dropped": dr.dropped,
